@@ -35,7 +35,7 @@ static void fail(const std::string &id, const std::string &msg) {
   if (g_fail.size() < 40) g_fail.push_back(id + "|" + msg);
 }
 
-/// start: 0 empty | 1 inline/small with j elements | 2 reserve(r) | 3 k elements then shrink_to_fit
+/// start: 0 empty | 1 inline/small with j elements | 2 reserve(r) | 3 k elements then shrink_to_fit | 4 k+3, pop 3, shrink_to_fit
 static void scenario(int start, long arg) {
   char idb[96];
   std::snprintf(idb, sizeof idb, "append|start=%d|arg=%ld", start, arg);
@@ -47,8 +47,10 @@ static void scenario(int start, long arg) {
     V v;
     if (start == 1) for (long i = 0; i < arg; ++i) v.push_back(E::make(1));
     if (start == 2) v.reserve((typename V::size_type)arg);
-    if (start == 3) {
-      for (long i = 0; i < arg; ++i) v.push_back(E::make(1));
+    if (start == 3 || start == 4) {
+      // 3: arg elements, never more; 4: arg + 3 elements (heap for a SmallVector), back to arg, then shrink_to_fit
+      for (long i = 0; i < arg + (start == 4 ? 3 : 0); ++i) v.push_back(E::make(1));
+      if (start == 4) for (int q = 0; q < 3; ++q) v.pop_back();
       v.shrink_to_fit();
       long want = (kSmall && arg <= N) ? N : arg;
       if ((long)v.capacity() != want) fail(id, "shrink_to_fit: capacity " + std::to_string((long)v.capacity()) + ", expected " + std::to_string(want));
@@ -137,6 +139,7 @@ int main(int argc, char **argv) {
   for (long j = 1; j <= std::max(N, 3); ++j) scenario(1, j);
   for (long r = 0; r <= 64 && r <= MAXV; ++r) scenario(2, r);
   for (long k = 0; k <= 9; ++k) scenario(3, k);
+  for (long k = 0; k <= 9 && k + 3 <= MAXV; ++k) scenario(4, k);
   for (int st = 0; st <= 2; ++st)
     for (long arg = (st == 0 ? 0 : 1); arg <= (st == 0 ? 0 : st == 1 ? std::max(N, 3) : 12); ++arg)
       for (long n = 0; n <= 64; ++n) reserve_point(st, arg, n);
